@@ -13,7 +13,9 @@ use std::path::PathBuf;
 use std::sync::{Arc, Mutex};
 use tower_lsp_server::ls_types::*;
 
-const CONFTEST: &str = "import pytest\n\n@pytest.fixture\ndef fx():\n    return 1\n";
+const CONFTEST: &str = "import pytest\nfrom fxhelpers import *\n\n@pytest.fixture\ndef fx():\n    return 1\n";
+// a module the conftest star-imports: its fixture is visible from the test through the conftest
+const HELPERS: &str = "import pytest\n\n@pytest.fixture\ndef impfx():\n    return 1\n";
 // directories beside t/: their conftest.py files are not visible from the test, whatever they define —
 // also a fixture called `fx` like the visible one (one registered before the root conftest, one after it)
 const SIBLING: &str = "import pytest\n\n@pytest.fixture\ndef sibfx():\n    return 1\n\n@pytest.fixture\ndef fx():\n    return 2\n";
@@ -27,6 +29,7 @@ fn fresh_db(text: &str) -> Arc<FixtureDatabase> {
     let (c, s, t) = paths();
     let db = Arc::new(FixtureDatabase::new());
     db.analyze_file(s, SIBLING);
+    db.analyze_file(PathBuf::from("/nonexistent/ws/fxhelpers.py"), HELPERS);
     db.analyze_file(c, CONFTEST);
     db.analyze_file(PathBuf::from("/nonexistent/ws/ysib/conftest.py"), SIBLING_LATE);
     db.analyze_file(t, text);
